@@ -31,7 +31,7 @@ struct Front {
     policy: bool,            // rich Route::Frontend
 }
 
-const HOSTS_TREE: &[&str] = &["a.x", "b.x", "*.x", "a.b.x", "*.b.x", "x"];
+const HOSTS_TREE: &[&str] = &["a.x", "b.x", "*.x", "a.b.x", "*.b.x", "x", "/[ab]+/.x", "/[a-c]+/.x"];
 const HOSTS_LIST: &[&str] = &["a.x", "b.x", "*.x", "a.b.x", "*", "/[ab]+/.x", "x"];
 const PREFIXES: &[&str] = &["", "/", "/a", "/a/", "/a/b", "/ab"];
 const EQUALS: &[&str] = &["/", "/a", "/a/b", "/ab", "/a/"];
@@ -252,98 +252,89 @@ impl Model {
                 return ([outcome_of(f)].into(), false, "pre".into());
             }
         }
+        // what happens when the tree does not decide: first matching post rule, else not found
+        let fallthrough = self
+            .post
+            .iter()
+            .find(|f| matches(f, false))
+            .map(outcome_of)
+            .unwrap_or(Outcome::NotFound);
         // tree: the most specific host class that has any rule for a matching host
         let mut best_class = 0;
         for f in &self.tree {
             best_class = best_class.max(host_match(&f.key.host, host, true));
         }
+        if best_class == 0 {
+            let why = if fallthrough == Outcome::NotFound { "none" } else { "post" };
+            return ([fallthrough].into(), false, why.into());
+        }
         let mut out = BTreeSet::new();
         let mut ambiguous = false;
-        let mut why = String::new();
-        let mut tree_decided = false;
-        if best_class > 0 {
-            // hosts of that class matching the probe (several regex hosts, or several wildcard
-            // depths cannot happen for one-label wildcards; several regex hosts can)
-            let hosts: BTreeSet<&str> = self
-                .tree
-                .iter()
-                .filter(|f| host_match(&f.key.host, host, true) == best_class)
-                .map(|f| f.key.host.as_str())
-                .collect();
-            if hosts.len() > 1 {
-                ambiguous = true; // several regex hosts cover the probe: undefined order
-            }
-            let lower_exists = self.tree.iter().any(|f| {
+        // hosts of that class covering the probe: one exact host or one wildcard at most, but
+        // possibly several regex hosts (their relative order is undefined: any may be chosen)
+        let hosts: BTreeSet<&str> = self
+            .tree
+            .iter()
+            .filter(|f| host_match(&f.key.host, host, true) == best_class)
+            .map(|f| f.key.host.as_str())
+            .collect();
+        if hosts.len() > 1 {
+            ambiguous = true;
+        }
+        let lower: Vec<&Front> = self
+            .tree
+            .iter()
+            .filter(|f| {
                 let c = host_match(&f.key.host, host, true);
                 c > 0 && c < best_class && matches(f, true)
-            });
-            for h in &hosts {
-                let cands: Vec<(&Front, (u8, usize), u8)> = self
-                    .tree
-                    .iter()
-                    .filter(|f| f.key.host == *h)
-                    .filter_map(|f| {
-                        let p = path_match(f.key.kind, &f.key.path, path)?;
-                        let m = method_match(&f.key.method, method)?;
-                        Some((f, p, m))
-                    })
-                    .collect();
-                if cands.is_empty() {
-                    continue;
-                }
-                tree_decided = true;
-                // Pareto-maximal under (path rank) x (method rank)
-                let regex_count = cands.iter().filter(|c| c.1.0 == 2).count();
-                let maximal: Vec<&(&Front, (u8, usize), u8)> = cands
-                    .iter()
-                    .filter(|a| {
-                        !cands.iter().any(|b| {
-                            (b.1 >= a.1 && b.2 >= a.2) && (b.1 > a.1 || b.2 > a.2)
-                        })
-                    })
-                    .collect();
-                if maximal.len() > 1 {
+            })
+            .collect();
+        for h in &hosts {
+            let cands: Vec<(&Front, (u8, usize), u8)> = self
+                .tree
+                .iter()
+                .filter(|f| f.key.host == *h)
+                .filter_map(|f| {
+                    let p = path_match(f.key.kind, &f.key.path, path)?;
+                    let m = method_match(&f.key.method, method)?;
+                    Some((f, p, m))
+                })
+                .collect();
+            if cands.is_empty() {
+                // the chosen host has no rule for this path/method: the request falls through to
+                // the post rules; the statement does not say whether a less specific host may
+                // serve instead, so that reading is acceptable too
+                out.insert(fallthrough.clone());
+                if !lower.is_empty() {
                     ambiguous = true;
-                }
-                for m in &maximal {
-                    if m.1.0 == 2 && regex_count > 1 {
-                        ambiguous = true;
-                        // any matching regex of the same method rank is acceptable
-                        for c in cands.iter().filter(|c| c.1.0 == 2 && c.2 == m.2) {
-                            out.insert(outcome_of(c.0));
-                        }
-                    }
-                    out.insert(outcome_of(m.0));
-                }
-                why = format!("tree host {h}");
-            }
-            if !tree_decided && lower_exists {
-                // most specific host has no matching path; the statement does not say whether a
-                // less specific host may serve: both readings acceptable
-                ambiguous = true;
-                for f in &self.tree {
-                    let c = host_match(&f.key.host, host, true);
-                    if c > 0 && c < best_class && matches(f, true) {
+                    for f in &lower {
                         out.insert(outcome_of(f));
                     }
                 }
+                continue;
+            }
+            // Pareto-maximal under (path rank) x (method rank)
+            let regex_count = cands.iter().filter(|c| c.1.0 == 2).count();
+            let maximal: Vec<&(&Front, (u8, usize), u8)> = cands
+                .iter()
+                .filter(|a| !cands.iter().any(|b| (b.1 >= a.1 && b.2 >= a.2) && (b.1 > a.1 || b.2 > a.2)))
+                .collect();
+            if maximal.len() > 1 {
+                ambiguous = true;
+            }
+            for m in &maximal {
+                if m.1.0 == 2 && regex_count > 1 {
+                    ambiguous = true;
+                    // several regexes match: undefined ordering between them (doc/configure.md)
+                    for c in cands.iter().filter(|c| c.1.0 == 2 && c.2 == m.2) {
+                        out.insert(outcome_of(c.0));
+                    }
+                }
+                out.insert(outcome_of(m.0));
             }
         }
-        if tree_decided && !ambiguous {
-            return (out, false, why);
-        }
-        if tree_decided {
-            return (out, true, why);
-        }
-        // post
-        for f in &self.post {
-            if matches(f, false) {
-                out.insert(outcome_of(f));
-                return (out, ambiguous, "post".into());
-            }
-        }
-        out.insert(Outcome::NotFound);
-        (out, ambiguous, "none".into())
+        let why = format!("tree hosts {hosts:?}");
+        (out, ambiguous, why)
     }
 }
 
